@@ -580,7 +580,7 @@ func (e *Exec) builtin(name string, call *ast.CallExpr, c *Ctx, want int) []Term
 				return []Term{e.uninterp("appendstr", []Term{s, o}, s.T)}
 			}
 			e.assume(c.st, fmt.Sprintf("(and (>= %s 0) (>= %s 0))", e.seqLen(s), e.seqLen(o)))
-			if so := e.sliceOrig[s.S]; so != nil && !c.spec {
+			if so := e.sliceOrig[s.S]; so != nil && !c.spec && so.baseText != e.assignLHS {
 				e.safetyAssert(c, "append-aliasing", fmt.Sprintf("(or (= %s 0) (>= (+ %s %s) %s))", e.seqLen(o), so.lo, e.seqLen(s), e.seqLen(so.base)),
 					exprText(call.Args[0]), call)
 				r := e.seqConcat(s, o)
@@ -590,7 +590,7 @@ func (e *Exec) builtin(name string, call *ast.CallExpr, c *Ctx, want int) []Term
 			return []Term{e.seqConcat(s, o)}
 		}
 		so := e.sliceOrig[s.S]
-		if so != nil && !c.spec {
+		if so != nil && !c.spec && so.baseText != e.assignLHS {
 			e.safetyAssert(c, "append-aliasing", fmt.Sprintf("(>= (+ %s %s) %s)", so.lo, e.seqLen(s), e.seqLen(so.base)),
 				exprText(call.Args[0]), call)
 		}
@@ -1283,7 +1283,7 @@ func (e *Exec) specCall(call *ast.CallExpr, c *Ctx) Term {
 			case KSlice:
 				return Term{e.seqLen(v), tInt}
 			case KMap:
-				return Term{e.mapLen(c.st, v), tInt}
+				return Term{fmt.Sprintf("(ite (= %s 0) 0 %s)", v.S, e.mapLen(c.st, v)), tInt}
 			case KStr:
 				return Term{e.strLen(v), tInt}
 			}
